@@ -22,13 +22,42 @@ warnings.filterwarnings("ignore")
 
 
 # ------------------------------------------------------------------ forms
-def fit_form(cfg, rows, nf, form, dtype, cuts, tmp):
+def disturb(rng, cfg, nf):
+    """unrelated activity in the same process: estimators built with the same and with other
+    parameters, re-configured through every setter, fitted and re-clustered"""
+    for same in (True, False):
+        c = cfg if same else hist.gen_cfg(rng)
+        other = hist.make_bb(c)
+        data = {}
+        rows, _ = hist.gen_fps(rng, rng.randint(2, 12), nf)
+        hist.apply_op(other, {"op": "fit", "rows": rows, "labels": None, "form": "unpacked-array",
+                              "bad_at": None}, data, nf)
+        c2 = hist.gen_cfg(rng)
+        if c["crit"] in hist.HAS_TOL:
+            # the same criterion with another tolerance, through set_merge and through the property
+            hist.apply_op(other, {"op": "setcfg", "crit": c["crit"], "tol": rng.choice([0.0, 0.3, 0.5, 0.9]),
+                                  "thr": None, "bf": None}, data, nf)
+            try:
+                other.tolerance = rng.choice([0.0, 0.25, 0.6])
+            except Exception:
+                pass
+        hist.apply_op(other, {"op": "setcfg", "crit": c2["crit"], "tol": c2["tol"], "thr": c2["thr"],
+                              "bf": c2["bf"]}, data, nf)
+        hist.apply_op(other, {"op": "recluster", "iters": 1, "extra": 0.0, "shuffle": False, "seed": 0,
+                              "stop_early": False}, data, nf)
+        hist.apply_op(other, {"op": "fit", "rows": rows[:3], "labels": None, "form": "packed-array",
+                              "bad_at": None}, data, nf)
+
+
+def fit_form(cfg, rows, nf, form, dtype, cuts, tmp, between=None):
     bb = hist.make_bb(cfg)
     A = np.array(rows, dtype=np.uint8).reshape(len(rows), nf)
     bounds = [0] + list(cuts) + [len(rows)]
     for a, b in zip(bounds[:-1], bounds[1:]):
         if a == b:
             continue
+        if between is not None and a > 0:
+            between()
         chunk = A[a:b]
         packed, kind = form.split("-")
         if packed == "packed":
@@ -81,6 +110,21 @@ def suite_forms(seed, tier):
                                   "cfg": cfg, "nf": nf, "rows": rows, "form": form,
                                   "dtype": np.dtype(dt).name, "cuts": cuts})
                     break
+            # repeated runs in a process where OTHER estimators are created, re-configured and used in
+            # between (also between two fit calls of the run itself): same sequence, same parameters,
+            # same clusters
+            if ref is not None and not any(b.get("rows") is rows for b in r.bad):
+                disturb(rng, cfg, nf)
+                again = fit_form(cfg, rows, nf, "unpacked-ndarray", np.uint8, [], tmp)
+                cut = rng.randint(1, len(rows) - 1) if len(rows) > 1 else 0
+                split = fit_form(cfg, rows, nf, "unpacked-ndarray", np.uint8, [cut] if cut else [], tmp,
+                                 between=lambda: disturb(rng, cfg, nf))
+                variants_run += 2
+                if again != ref or split != ref:
+                    r.bad.append({"suite": "forms", "what": "a repeated run with the same sequence and parameters "
+                                  "gives other clusters after other estimators were configured and used in the "
+                                  "same process" + ("" if again != ref else " between two fit calls of the run"),
+                                  "cfg": cfg, "nf": nf, "rows": rows, "cut": cut})
             # model on the decoded sequence, in one call
             h = {"cfg": cfg, "nf": nf, "ops": [{"op": "fit", "rows": rows, "labels": None,
                                                 "form": "unpacked-array", "bad_at": None}]}
